@@ -1,0 +1,43 @@
+//go:build verif
+
+// Contracts checked by /verif/govc (comment-only file; adds no code).
+
+package plugin
+
+//@ import stdio "io"
+
+//@ global invariant executor != nil
+
+// ---- C17: validated replies, bounded output, bounded time ----
+
+//@ pure func metaValid(m *plugin.GetMetadataResponse) bool = m.Name != "" && m.Description != "" && m.Version != "" && m.URL != "" && len(m.Capabilities) > 0 && len(m.SupportedContractVersions) > 0 && hasStr(m.SupportedContractVersions, "1.0")
+
+//@ func validate
+//@ props C17
+//@ requires metadata != nil
+//@ ensures[C17.metadata] (result == nil) == metaValid(metadata)
+
+//@ func (*CLIPlugin).GetMetadata
+//@ props C17 C16
+//@ requires p != nil
+//@ ensures[C17.metadata] result1 == nil ==> result != nil && metaValid(result) && result.Name == p.name
+//@ ensures result1 != nil ==> result == nil
+
+//@ pure func limited(w stdio.Writer, limit int64) bool = typeis(w, *io.LimitedWriter) && w.(*io.LimitedWriter) != nil && w.(*io.LimitedWriter).N == limit
+
+//@ func (execCommander).Output
+//@ props C17
+//@ requires ctx != nil
+//@ at call (*Cmd).Run: assert[C17.bounded-time] recv.WaitDelay > 0
+//@ at call (*Cmd).Run: assert[C17.bounded-output] limited(recv.Stdout, 64*1024*1024) && limited(recv.Stderr, 64*1024*1024)
+//@ ensures[C17.stdout-only-on-success] result2 != nil ==> result == nil
+
+//@ func run
+//@ props C17
+//@ requires req != nil && executor != nil
+//@ modifies *unboxptr(resp)
+//@ at call (commander).Output: assert[C17.run-args] arg1 == pluginPath && arg2 == reqCommand(req)
+//@ ensures[C17.success] result == nil ==> jsonEncErr(req) == nil && cmdErr(pluginPath, reqCommand(req), jsonEnc(req)) == nil && jsonDecodedInto(cmdStdout(pluginPath, reqCommand(req), jsonEnc(req)), resp)
+//@ ensures[C17.exec-error] jsonEncErr(req) == nil && cmdErr(pluginPath, reqCommand(req), jsonEnc(req)) != nil && cmdStderr(pluginPath, reqCommand(req), jsonEnc(req)) == "" ==> typeis(result, *PluginExecutableFileError)
+//@ ensures[C17.structured-error] jsonEncErr(req) == nil && cmdErr(pluginPath, reqCommand(req), jsonEnc(req)) != nil && cmdStderr(pluginPath, reqCommand(req), jsonEnc(req)) != "" ==> ite(decReqErrErr(cmdStderr(pluginPath, reqCommand(req), jsonEnc(req))) == nil, typeis(result, proto.RequestError), typeis(result, *PluginMalformedError))
+//@ ensures[C17.malformed-reply] jsonEncErr(req) == nil && cmdErr(pluginPath, reqCommand(req), jsonEnc(req)) == nil && jsonDecErr(cmdStdout(pluginPath, reqCommand(req), jsonEnc(req)), resp) != nil ==> typeis(result, *PluginMalformedError)
